@@ -2,6 +2,7 @@ pub mod tt;
 #[macro_use]
 pub mod engine;
 pub mod walk;
+pub mod big;
 #[macro_use]
 pub mod bddi;
 pub mod cnfgen;
